@@ -103,14 +103,16 @@ PROPS["C06"] = {
             "Family leg (round 7): a parent (budget 0..3, last panic in a message or in Started) exhausts its budget while 1..4 children (budgets 0..2) are busy behind gates with 0..budget+1 panicking messages and plain "
             "messages queued - so a child can exhaust its own budget while the dying parent's pill for it is pending; once every child has published ActorStoppedEvent the parent must finish within 10 s (nothing but "
             "goroutine scheduling is left), then: all unregistered, later sends dead-letter exactly once, exactly one ActorMaxRestartsExceededEvent for the parent and for each child with more panics than budget, "
-            "restarts = min(panics, budget) each, Stopped handled restarts+1 times, children's last Stopped before the parent's, a bystander answers; non-trivial = a child was busy when the parent died.",
+            "restarts = min(panics, budget) each, Stopped handled restarts+1 times, children's last Stopped before the parent's, a bystander answers; non-trivial = a child was busy when the parent died.  "
+            "The small families are also enumerated completely (family-enum: parent budget 0..2 x message/Started x child budget 0..2 x 0..budget+1 panics x busy/idle x 3 pauses x with/without an idle sibling = 540 cases).",
     "technique": "complete fault enumeration over (budget, crash placement, queue content, children) + model-based property testing (rapid)",
-    "level_text": "The small fault space is enumerated completely (400 cases); generated histories extend it. Outcome compared with an exact model.",
+    "level_text": "The small fault spaces are enumerated completely (400 single-actor cases, 540 parent-and-children cases); generated histories and families extend them. Outcome compared with an exact model.",
     "level_note": "trusts internal/life/sim.go; a panic inside a Stopped handler is not generated",
     "assumptions": LIFE_ASSUME,
     "legs": [plain("enum", "c06", "TestMaxRestartsEnum"),
              rapid("life", "c06", "TestMaxRestarts", 3000, 50000, shards=(2, 12)),
-             rapid("family", "c06", "TestMaxRestartsFamily", 1500, 30000, shards=(2, 12))],
+             rapid("family", "c06", "TestMaxRestartsFamily", 1500, 30000, shards=(2, 12)),
+             plain("family-enum", "c06", "TestMaxRestartsFamilyEnum")],
 }
 
 PROPS["C07"] = {
